@@ -223,6 +223,8 @@ def run(payload):
                 sh = list(np.array(s_)[rng.permutation(len(s_))])
                 plans.append(("marked-shuffled=%s" % [int(v) for v in sh], [np.array(sh, dtype=np.int64)]))
             plans.append(("marked-then-uniform", [np.array(subsets[0], dtype=np.int64), 1]))
+            if not big3d:
+                plans.append(("marked-then-uniform-twice-in-one-call", [np.array(subsets[0], dtype=np.int64), 2]))
             plans.append(("marked-then-marked", [np.array(subsets[-1], dtype=np.int64), "again"]))
         for pname, steps in plans:
             clabel = "%s/%s/%s" % (what, label, pname)
